@@ -128,4 +128,83 @@ Section OpsLocal.
     - intros Hi. simpl. intros i H. unfold upd. destruct (Z.eqb_spec i (h_len bl)); [eauto|].
       apply Hi. lia.
   Qed.
+
+  (* ------------------------------------------------------------------ insert (no growth) *)
+  Definition shift_up (f : Z -> slot) (idx n : Z) : Z -> slot :=
+    fun k => if (idx + 1 <=? k) && (k <? idx + 1 + n) then f (k - (idx + 1) + idx) else f k.
+
+  Lemma insert_fits s v b bl idx e :
+    vec_at s v b bl -> block_ok cfg bl -> 0 <= idx <= h_len bl -> h_len bl < h_cap bl ->
+    let f1 := if h_len bl - idx <=? 0 then slots bl else shift_up (slots bl) idx (h_len bl - idx) in
+    let bl' := with_hdr (with_slots bl (upd f1 idx (Init e))) (h_len bl + 1) (h_cap bl) (h_align bl) in
+    exists s', insert cfg ncap v idx e s = (Val tt, s') /\ vec_at s' v b bl' /\ frame_block s s' b /\
+               block_ok cfg bl' /\
+               velems bl' = firstn (Z.to_nat idx) (velems bl) ++ e :: skipn (Z.to_nat idx) (velems bl) /\
+               (init_upto (slots bl) (h_len bl) -> init_upto (slots bl') (h_len bl')).
+  Proof.
+    intros Hv Hb Hidx Hlt f1 bl'.
+    pose proof (bo_len _ _ Hb) as Hlen.
+    destruct (as_ptr_at cfg _ _ _ _ Hcfg Hv Hb) as (off & Hco & Hp).
+    set (bl1 := with_slots bl f1).
+    set (s1 := upd_block s b bl1).
+    assert (Hb1 : block_ok cfg bl1) by (apply block_ok_with_slots; assumption).
+    assert (Hv1 : vec_at s1 v b bl1) by (apply vec_at_upd with (bl := bl); assumption).
+    set (bl2 := with_slots bl1 (upd f1 idx (Init e))).
+    set (s2 := upd_block s1 b bl2).
+    assert (Hb2 : block_ok cfg bl2) by (apply block_ok_with_slots; assumption).
+    assert (Hv2 : vec_at s2 v b bl2) by (apply vec_at_upd with (bl := bl1); assumption).
+    assert (Hcopy : slot_copy cfg (PElt b off idx) (PElt b off (idx + 1)) (h_len bl - idx) s = (Val tt, s1)).
+    { subst s1 bl1 f1. destruct (Z.leb_spec (h_len bl - idx) 0) as [L|L].
+      - unfold slot_copy. assert (E : (h_len bl - idx <=? 0) = true) by (apply Z.leb_le; lia). rewrite E.
+        unfold ret. f_equal. unfold upd_block. destruct s; simpl. f_equal.
+        destruct Hv as [_ Hh]. simpl in Hh. clear - Hh.
+        revert b Hh. induction heap as [|x l IH]; intros [|b] Hh; simpl in *; try discriminate.
+        + inversion Hh; subst. destruct bl; reflexivity.
+        + f_equal. apply IH. exact Hh.
+      - rewrite (slot_copy_at cfg s b bl off idx (idx + 1) (h_len bl - idx) Hcfg (proj2 Hv) Hb Hco); try lia.
+        reflexivity. }
+    exists (upd_block s2 b bl'). split; [|split; [|split; [|split; [|split]]]].
+    - unfold insert. apply on_unwind_val.
+      run (len_at cfg _ _ _ _ Hcfg Hv Hb).
+      assert (E0 : (h_len bl <? idx) = false) by (apply Z.ltb_ge; lia). rewrite E0. rewrite bind_ret.
+      run (capacity_at cfg _ _ _ _ Hcfg Hv Hb).
+      assert (E : (h_len bl =? h_cap bl) = false) by (apply Z.eqb_neq; lia). rewrite E. rewrite bind_ret.
+      run Hp. simpl padd. try rewrite Z.add_0_l.
+      run Hcopy.
+      assert (R : 0 <= idx < h_cap bl1) by (simpl; lia).
+      run (slot_write_at cfg s1 b bl1 off idx e Hcfg (proj2 Hv1) Hb1 Hco R).
+      change (upd_block s1 b (with_slots bl1 (upd (slots bl1) idx (Init e)))) with s2.
+      rewrite (set_len_at cfg s2 v b bl2 (h_len bl + 1) Hcfg Hv2 Hb2). reflexivity.
+    - apply vec_at_upd with (bl := bl2). assumption.
+    - eapply frame_trans; [|apply frame_upd]. eapply frame_trans; apply frame_upd.
+    - apply block_ok_with_len with (bl := bl2); [assumption|simpl; lia].
+    - unfold velems. simpl. apply list_ext. intros k.
+      assert (Hl0 : List.length (view (slots bl) (h_len bl)) = Z.to_nat (h_len bl)).
+      { unfold view. rewrite map_length, seq_length. reflexivity. }
+      destruct (Nat.lt_ge_cases k (Z.to_nat (h_len bl + 1))) as [Lk|Gk].
+      + rewrite view_nth_nat by lia.
+        destruct (Nat.lt_ge_cases k (Z.to_nat idx)) as [L1|G1].
+        * rewrite nth_error_app1 by (rewrite firstn_length; lia).
+          rewrite nth_error_firstn_lt by lia. rewrite view_nth_nat by lia.
+          unfold upd. destruct (Z.eqb_spec (Z.of_nat k) idx); [lia|].
+          subst f1. destruct (Z.leb_spec (h_len bl - idx) 0); [reflexivity|].
+          unfold shift_up. destruct (Z.leb_spec (idx + 1) (Z.of_nat k)); [lia|reflexivity].
+        * rewrite nth_error_app2 by (rewrite firstn_length; lia).
+          rewrite firstn_length, Hl0. replace (Nat.min (Z.to_nat idx) (Z.to_nat (h_len bl))) with (Z.to_nat idx) by lia.
+          destruct (Nat.eq_dec k (Z.to_nat idx)) as [Ek|Nk].
+          -- subst k. rewrite Nat.sub_diag. simpl. unfold upd. rewrite Z2Nat.id by lia. rewrite Z.eqb_refl. reflexivity.
+          -- replace (k - Z.to_nat idx)%nat with (S (k - Z.to_nat idx - 1)) by lia. simpl.
+             rewrite nth_error_skipn_local. rewrite view_nth_nat by lia.
+             unfold upd. destruct (Z.eqb_spec (Z.of_nat k) idx); [lia|].
+             subst f1. destruct (Z.leb_spec (h_len bl - idx) 0); [lia|].
+             unfold shift_up.
+             destruct (Z.leb_spec (idx + 1) (Z.of_nat k)); [|lia].
+             destruct (Z.ltb_spec (Z.of_nat k) (idx + 1 + (h_len bl - idx))); [|lia]. cbn [andb].
+             f_equal. f_equal. f_equal. lia.
+      + rewrite view_nth_none by lia. symmetry. apply nth_error_None.
+        rewrite app_length, firstn_length. simpl. rewrite skipn_length, Hl0. lia.
+    - intros Hi. simpl. intros i H. unfold upd. destruct (Z.eqb_spec i idx); [eauto|].
+      subst f1. destruct (Z.leb_spec (h_len bl - idx) 0); [apply Hi; lia|].
+      unfold shift_up. destruct (Z.leb_spec (idx + 1) i); destruct (Z.ltb_spec i (idx + 1 + (h_len bl - idx))); simpl; apply Hi; lia.
+  Qed.
 End OpsLocal.
